@@ -2,18 +2,23 @@
 #include <utility>
 namespace std {
 struct random_access_iterator_tag;
-/* class-type random access iterator over contiguous storage (so ADL finds std:: algorithms, as with libstdc++'s __normal_iterator) */
-template <class T, class Owner> class __ptr_iter { T* p_; public:
+/* class-type random access iterator over contiguous storage (so ADL finds std:: algorithms, as with libstdc++'s
+ * __normal_iterator). It is kept as (storage base, index): iterator comparisons and distances are *integer* operations
+ * on the index, which the symbolic executor constant-folds even when the storage pointer itself is not a propagated
+ * constant (pointer-valued loop bounds made every container loop unroll to the unwind limit). Dereferencing goes
+ * through base[index], so use after reallocation / free is still a pointer-check failure. */
+template <class T, class Owner> class __ptr_iter { T* b_; ptrdiff_t i_; public:
   typedef remove_cv_t<T> value_type; typedef T& reference; typedef T* pointer; typedef ptrdiff_t difference_type; typedef random_access_iterator_tag iterator_category;
-  constexpr __ptr_iter() noexcept : p_(nullptr) {} constexpr explicit __ptr_iter(T* p) noexcept : p_(p) {}
-  template <class U, class = enable_if_t<is_convertible<U*, T*>::value>> constexpr __ptr_iter(const __ptr_iter<U, Owner>& o) noexcept : p_(o.base()) {}
-  constexpr T* base() const noexcept { return p_; } constexpr T& operator*() const { return *p_; } constexpr T* operator->() const { return p_; } constexpr T& operator[](ptrdiff_t i) const { return p_[i]; }
-  constexpr __ptr_iter& operator++() { ++p_; return *this; } constexpr __ptr_iter operator++(int) { return __ptr_iter(p_++); } constexpr __ptr_iter& operator--() { --p_; return *this; } constexpr __ptr_iter operator--(int) { return __ptr_iter(p_--); }
-  constexpr __ptr_iter& operator+=(ptrdiff_t n) { p_ += n; return *this; } constexpr __ptr_iter& operator-=(ptrdiff_t n) { p_ -= n; return *this; }
-  constexpr __ptr_iter operator+(ptrdiff_t n) const { return __ptr_iter(p_ + n); } constexpr __ptr_iter operator-(ptrdiff_t n) const { return __ptr_iter(p_ - n); }
+  constexpr __ptr_iter() noexcept : b_(nullptr), i_(0) {} constexpr explicit __ptr_iter(T* p) noexcept : b_(p), i_(0) {} constexpr __ptr_iter(T* b, ptrdiff_t i) noexcept : b_(b), i_(i) {}
+  template <class U, class = enable_if_t<is_convertible<U*, T*>::value>> constexpr __ptr_iter(const __ptr_iter<U, Owner>& o) noexcept : b_(o.__b()), i_(o.__i()) {}
+  constexpr T* __b() const noexcept { return b_; } constexpr ptrdiff_t __i() const noexcept { return i_; }
+  constexpr T* base() const noexcept { return b_ + i_; } constexpr T& operator*() const { return b_[i_]; } constexpr T* operator->() const { return b_ + i_; } constexpr T& operator[](ptrdiff_t k) const { return b_[i_ + k]; }
+  constexpr __ptr_iter& operator++() { ++i_; return *this; } constexpr __ptr_iter operator++(int) { __ptr_iter t(*this); ++i_; return t; } constexpr __ptr_iter& operator--() { --i_; return *this; } constexpr __ptr_iter operator--(int) { __ptr_iter t(*this); --i_; return t; }
+  constexpr __ptr_iter& operator+=(ptrdiff_t n) { i_ += n; return *this; } constexpr __ptr_iter& operator-=(ptrdiff_t n) { i_ -= n; return *this; }
+  constexpr __ptr_iter operator+(ptrdiff_t n) const { return __ptr_iter(b_, i_ + n); } constexpr __ptr_iter operator-(ptrdiff_t n) const { return __ptr_iter(b_, i_ - n); }
 };
-template <class T, class U, class O> constexpr ptrdiff_t operator-(const __ptr_iter<T, O>& a, const __ptr_iter<U, O>& b) { return a.base() - b.base(); }
+template <class T, class U, class O> constexpr ptrdiff_t operator-(const __ptr_iter<T, O>& a, const __ptr_iter<U, O>& b) { return a.__i() - b.__i(); }
 template <class T, class O> constexpr __ptr_iter<T, O> operator+(ptrdiff_t n, const __ptr_iter<T, O>& a) { return a + n; }
-#define VSTL_PI_CMP(OP) template <class T, class U, class O> constexpr bool operator OP(const __ptr_iter<T, O>& a, const __ptr_iter<U, O>& b) { return a.base() OP b.base(); }
+#define VSTL_PI_CMP(OP) template <class T, class U, class O> constexpr bool operator OP(const __ptr_iter<T, O>& a, const __ptr_iter<U, O>& b) { return a.__i() OP b.__i(); }
 VSTL_PI_CMP(==) VSTL_PI_CMP(!=) VSTL_PI_CMP(<) VSTL_PI_CMP(<=) VSTL_PI_CMP(>) VSTL_PI_CMP(>=)
 }
